@@ -35,7 +35,10 @@ def rand_flags(rng):
     if r < 0.15:
         kv["strip"] = rng.choice(["safe", "all", b"tEXt".hex(), b"tEXt".hex() + "+" + b"pHYs".hex()])
     elif r < 0.25:
-        kv["keep"] = rng.choice(["display", b"tEXt".hex(), "display+" + b"tEXt".hex(), b"pHYs".hex() + "+" + b"iCCP".hex()])
+        hx = lambda n: n.encode().hex()
+        kv["keep"] = rng.choice(["display", hx("tEXt"), "display+" + hx("tEXt"), hx("pHYs") + "+" + hx("iCCP"),
+                                 hx("tEXt") + "+display", hx("eXIf") + "+display+" + hx("tEXt"), hx("tEXt") + "+" + hx("tIME") + "+display",
+                                 hx("zTXt") + "+display", "display+" + hx("eXIf") + "+" + hx("tIME"), hx("tIME") + "+" + hx("tEXt")])
     elif r < 0.32:
         kv["s"] = "1"
     if rng.random() < 0.08:
@@ -94,6 +97,16 @@ def run(rep):
     cases = []
     for k in range(n):
         kv = rand_flags(rng)
+        if k % 13 == 7:
+            # a switch that must not leak into another: --scale16 together with --nb / --nx on images that are not 16-bit
+            kv = {"scale16": "1", rng.choice(["nb", "nx"]): "1"}
+            if rng.random() < 0.5:
+                kv["o"] = rng.choice(["0", "2", "4"])
+        elif k % 13 == 9:
+            # flags that must not imply forced output: --fix, --fast, -a, ... alone on inputs that cannot be improved (second pass below)
+            kv = {rng.choice(["fix", "fast", "a", "nz", "ng"]): "1", "o": rng.choice(["0", "1"])}
+        if "keep" in kv and "display" in kv["keep"] and "+" in kv["keep"]:
+            k = 5 * (k // 5) + 1          # chunk-rich input for keep lists that mix names with `display`
         if k % 5 == 1:
             png = chunkgen.gen_png(rng)[0]
         elif k % 5 == 2:
@@ -102,7 +115,9 @@ def run(rep):
             ct, depth = pg.LEGAL[k % 15]
             cls = rng.choice(imggen.CLASSES)
             # content on which the switches present in the flag vector make a difference
-            if "nb" in kv or "scale16" in kv:
+            if "scale16" in kv and ("nb" in kv or "nx" in kv):
+                ct, depth, cls = rng.choice([(0, 8, "bitrep"), (3, 8, "bitrep"), (3, 8, "fewcolors"), (0, 8, "bitrep"), (2, 16, "random")])
+            elif "nb" in kv or "scale16" in kv:
                 ct, depth, cls = rng.choice([(0, 16, "hilo"), (2, 16, "hilo"), (0, 8, "bitrep"), (6, 16, "hilo"), (3, 8, "bitrep")])
             elif "ng" in kv or "nc" in kv:
                 ct, depth, cls = rng.choice([(2, 8, "gray"), (6, 8, "gray"), (6, 8, "opaque"), (2, 8, "fewcolors"), (4, 8, "opaque")])
@@ -114,7 +129,7 @@ def run(rep):
             w, h = max(w, 4), max(h, 4)
             tok, _ = imggen.gen(rng, ct, depth, w, h, rng.random() < 0.3, cls, rng.choice(imggen.KEY_MODES))
             png = e2e.png_from_token(rng, tok)
-        cases.append((kv, png, rng.choice(["stdout", "stdout", "inplace", "out", "dir", "pretend", "stdin"])))
+        cases.append((kv, png, rng.choice(["stdout", "stdout", "inplace", "out", "dir", "pretend", "stdin", "pretend-dir", "pretend-out"])))
     # options according to the model
     mc = vlib.Cases()
     for kv, png, route in cases:
@@ -189,10 +204,62 @@ def run(rep):
                 o2 = os.path.join(dd, "in.png")
                 if rc != 0 or not os.path.exists(o2) or open(o2, "rb").read() != wb or open(f, "rb").read() != png:
                     bad("C09:dir", "--dir did not deliver the library's bytes under the same file name")
+            elif route in ("pretend-dir", "pretend-out"):
+                dd = os.path.join(d, "outdir")
+                o2 = os.path.join(d, "out.png")
+                extra = ["--dir", dd] if route == "pretend-dir" else ["--out", o2]
+                if rng.random() < 0.5:
+                    extra = extra + ["--pretend"]
+                    rc, so, se = run_cli(cli, argv + extra + [f])
+                else:
+                    rc, so, se = run_cli(cli, argv + ["--pretend"] + extra + [f])
+                wrote = [x for x in os.listdir(d) if x != "in.png" and (x != "outdir" or os.listdir(dd))]
+                if rc != 0 or open(f, "rb").read() != png or so or wrote:
+                    bad("C09:pretend", f"--pretend together with {extra[0]} wrote something ({wrote})")
             elif route == "pretend":
                 rc, so, se = run_cli(cli, argv + ["--pretend", f])
                 if rc != 0 or open(f, "rb").read() != png or so or len(os.listdir(d)) != 1:
                     bad("C09:pretend", "--pretend wrote something")
+            shutil.rmtree(d, ignore_errors=True)
+        # ---- second pass: the library's own outputs as inputs, same or cheaper options: the executable must agree with the library
+        #      (which returns such inputs unchanged unless output is forced)
+        sp = vlib.Cases()
+        second = []
+        for cid, (kv, png, route) in list(zip(ids, cases))[: (80 if quick else 600)]:
+            want = lib.get(cid)
+            mo = rmo.get(cid, "")
+            if want and want.startswith("ok ") and mo.startswith("ok ") and "Z" not in kv:
+                second.append((cid, kv, bytes.fromhex(want[3:]), mo[3:]))
+        for cid, kv, inp, mopts in second:
+            sp.add(f"opt {mopts} {inp.hex()}", src=cid)
+        rs = vlib.run_cases(impl, sp.lines)
+        for (c2, m), (cid, kv, inp, mopts) in zip(sp.meta.items(), second):
+            want2 = rs.get(c2)
+            if not want2 or not want2.startswith("ok "):
+                continue
+            rep.evaluations += 1
+            rep.count("second-pass")
+            if bytes.fromhex(want2[3:]) == inp:
+                rep.count("second-pass:unchanged")
+            argv = argv_of(rng, kv)
+            d = os.path.join(tmp, f"s{c2}")
+            os.makedirs(d)
+            f = os.path.join(d, "in.png")
+            open(f, "wb").write(inp)
+            os.utime(f, ns=(1_500_000_000_000_000_000, 1_400_000_000_000_000_000))
+            if rng.random() < 0.5:
+                rc, so, se = run_cli(cli, argv + ["--stdout", f])
+                got = so
+            else:
+                rc, so, se = run_cli(cli, argv + [f])
+                got = open(f, "rb").read()
+                if rc == 0 and bytes.fromhex(want2[3:]) == inp and "force" not in kv and os.stat(f).st_mtime_ns != 1_400_000_000_000_000_000:
+                    rep.violation("C09:second-pass-touched", f"an input that cannot be improved was rewritten in place (argv {' '.join(argv)})",
+                                  {"cases": [mc.meta[cid]["cmd"]], "argv": argv, "png": inp.hex()})
+            if rc != 0 or got != bytes.fromhex(want2[3:]):
+                rep.violation("C09:second-pass-bytes", f"second pass over the library's own output: the executable delivers {len(got)} bytes (exit {rc}), the library "
+                              f"{len(want2) // 2 - 1} bytes for the documented option values (argv {' '.join(argv)})",
+                              {"cases": [mc.meta[cid]["cmd"]], "argv": argv, "png": inp.hex()})
             shutil.rmtree(d, ignore_errors=True)
         # ---- exit status and file collection
         good = cases[0][1]
